@@ -59,152 +59,113 @@ theorem similarity_symm (round32 : ℚ → ℚ) (g : AggGraph ℚ) (hw : ∀ x y
     (a b : Nat) : similarity round32 g a b = similarity round32 g b a := by
   unfold similarity
   simp only
-  rw [hw a b, add_comm (round32 (wOf g.outW a * wOf g.inW b)) (round32 (wOf g.outW b * wOf g.inW a))]
+  rw [hw a b, add_comm (wOf g.outW a * wOf g.inW b) (wOf g.outW b * wOf g.inW a)]
 
 /-! ### what the scan of the neighbours returns -/
 
 /-- the state of the scan after the neighbours `pre` -/
-def ScanInv (round32 : ℚ → ℚ) (g : AggGraph ℚ) (node : Nat) (pre : List Nat) (acc : Option Nat × Option ℚ) : Prop :=
-  (acc = (none, none) ∧ pre = []) ∨
-  ∃ nn ms, acc = (some nn, some ms) ∧ nn ∈ pre ∧ similarity round32 g node nn = some ms ∧
-    (∀ y ∈ pre, simGt (similarity round32 g node y) (some ms) = false) ∧
-    (∀ y ∈ pre, similarity round32 g node y = some ms → nn ≤ y)
+def ScanInv (round32 : ℚ → ℚ) (g : AggGraph ℚ) (node : Nat) (pre : List Nat) (acc : Nat × Option ℚ) : Prop :=
+  acc.1 ∈ pre ∧ similarity round32 g node acc.1 = acc.2 ∧
+    (∀ y ∈ pre, simGt (similarity round32 g node y) acc.2 = false) ∧
+    (∀ y ∈ pre, similarity round32 g node y = acc.2 → acc.1 ≤ y)
 
 theorem scan_spec (round32 : ℚ → ℚ) (g : AggGraph ℚ) (node : Nat) :
-    ∀ (nbrs pre : List Nat) (acc res : Option Nat × Option ℚ),
+    ∀ (nbrs pre : List Nat) (acc : Nat × Option ℚ),
       ScanInv round32 g node pre acc →
-      nbrs.foldlM (fun (st : Option Nat × Option ℚ) neighbor =>
-        let sim := similarity round32 g node neighbor
-        if simGt sim st.2 then (pure (some neighbor, sim) : Except PyErr _)
-        else if simEq sim st.2 then
-          match st.1 with
-          | some nn => pure (some (min neighbor nn), st.2)
-          | none => throw .valueError
-        else pure st) acc = .ok res →
-      ScanInv round32 g node (pre ++ nbrs) res := by
+      ScanInv round32 g node (pre ++ nbrs) (nbrs.foldl (scanStep round32 g node) acc) := by
   intro nbrs
   induction nbrs with
-  | nil =>
-    intro pre acc res hinv h
-    simp only [List.foldlM, pure, Except.pure, Except.ok.injEq] at h
-    subst h; simpa using hinv
+  | nil => intro pre acc hinv; simpa using hinv
   | cons k ks ih =>
-    intro pre acc res hinv h
-    simp only [List.foldlM, bind, Except.bind] at h
-    split at h
-    · cases h
-    · rename_i acc' hacc'
-      have e : pre ++ k :: ks = (pre ++ [k]) ++ ks := by simp
-      rw [e]
-      refine ih (pre ++ [k]) acc' res ?_ h
-      -- one neighbour
-      rcases hinv with ⟨hacc, hpre⟩ | ⟨nn, ms, hacc, hmem, hsim, hmax, hmin⟩
-      · subst hacc; subst hpre
-        simp only at hacc'
-        cases hs : similarity round32 g node k with
-        | none =>
-          simp [hs, simGt, simEq, throw, throwThe, MonadExceptOf.throw] at hacc'
-        | some s =>
-          simp only [hs, simGt, if_true, pure, Except.pure, Except.ok.injEq] at hacc'
-          subst hacc'
-          right
-          refine ⟨k, s, rfl, by simp, hs, ?_, ?_⟩
-          · intro y hy
-            simp only [List.nil_append, List.mem_cons, List.not_mem_nil, or_false] at hy
-            rw [hy, hs]; exact simGt_irrefl _
-          · intro y hy _
-            simp only [List.nil_append, List.mem_cons, List.not_mem_nil, or_false] at hy
-            omega
-      · subst hacc
-        simp only at hacc'
-        by_cases hgt : simGt (similarity round32 g node k) (some ms) = true
-        · simp only [hgt, if_true, pure, Except.pure, Except.ok.injEq] at hacc'
-          subst hacc'
-          obtain ⟨s, hs⟩ : ∃ s, similarity round32 g node k = some s := by
-            cases hs : similarity round32 g node k with
-            | none => rw [hs] at hgt; simp [simGt] at hgt
-            | some s => exact ⟨s, rfl⟩
-          right
-          refine ⟨k, s, by rw [hs], by simp, hs, ?_, ?_⟩
-          · intro y hy
-            rcases List.mem_append.mp hy with h1 | h1
-            · -- older neighbours are below the old maximum, which is below the new one
-              by_contra hcon
-              have hcon' : simGt (similarity round32 g node y) (some s) = true := by simpa using hcon
-              rw [hs] at hgt
-              have := simGt_trans hcon' hgt
-              rw [hmax y h1] at this; cases this
-            · simp only [List.mem_cons, List.not_mem_nil, or_false] at h1
-              rw [h1, hs]; exact simGt_irrefl _
-          · intro y hy hye
-            rcases List.mem_append.mp hy with h1 | h1
-            · exfalso
-              rw [hs] at hgt
-              have := hmax y h1
-              rw [hye] at this
-              rw [this] at hgt; cases hgt
-            · simp only [List.mem_cons, List.not_mem_nil, or_false] at h1
-              omega
-        · have hgt' : simGt (similarity round32 g node k) (some ms) = false := by simpa using hgt
-          simp only [hgt', Bool.false_eq_true, if_false] at hacc'
-          by_cases heq : simEq (similarity round32 g node k) (some ms) = true
-          · simp only [heq, if_true, pure, Except.pure, Except.ok.injEq] at hacc'
-            subst hacc'
-            have hk := simEq_iff.mp heq
-            right
-            refine ⟨min k nn, ms, rfl, ?_, ?_, ?_, ?_⟩
-            · by_cases hle : k ≤ nn
-              · rw [Nat.min_eq_left hle]; simp
-              · rw [Nat.min_eq_right (by omega)]; exact List.mem_append_left _ hmem
-            · by_cases hle : k ≤ nn
-              · rw [Nat.min_eq_left hle]; exact hk
-              · rw [Nat.min_eq_right (by omega)]; exact hsim
-            · intro y hy
-              rcases List.mem_append.mp hy with h1 | h1
-              · exact hmax y h1
-              · simp only [List.mem_cons, List.not_mem_nil, or_false] at h1
-                rw [h1]; exact hgt'
-            · intro y hy hye
-              rcases List.mem_append.mp hy with h1 | h1
-              · have := hmin y h1 hye
-                exact le_trans (Nat.min_le_right _ _) this
-              · simp only [List.mem_cons, List.not_mem_nil, or_false] at h1
-                rw [h1]; exact Nat.min_le_left _ _
-          · have heq' : simEq (similarity round32 g node k) (some ms) = false := by simpa using heq
-            simp only [heq', Bool.false_eq_true, if_false, pure, Except.pure, Except.ok.injEq] at hacc'
-            subst hacc'
-            right
-            refine ⟨nn, ms, rfl, List.mem_append_left _ hmem, hsim, ?_, ?_⟩
-            · intro y hy
-              rcases List.mem_append.mp hy with h1 | h1
-              · exact hmax y h1
-              · simp only [List.mem_cons, List.not_mem_nil, or_false] at h1
-                rw [h1]; exact hgt'
-            · intro y hy hye
-              rcases List.mem_append.mp hy with h1 | h1
-              · exact hmin y h1 hye
-              · simp only [List.mem_cons, List.not_mem_nil, or_false] at h1
-                exfalso
-                rw [h1] at hye
-                rw [hye] at heq'
-                simp [simEq] at heq'
+    intro pre acc hinv
+    simp only [List.foldl_cons]
+    have e : pre ++ k :: ks = (pre ++ [k]) ++ ks := by simp
+    rw [e]
+    refine ih (pre ++ [k]) _ ?_
+    obtain ⟨nn, ms⟩ := acc
+    obtain ⟨hmem, hsim, hmax, hmin⟩ := hinv
+    simp only at hmem hsim hmax hmin
+    unfold scanStep
+    simp only
+    by_cases hgt : simGt (similarity round32 g node k) ms = true
+    · simp only [hgt, if_true]
+      refine ⟨by simp, rfl, ?_, ?_⟩
+      · intro y hy
+        rcases List.mem_append.mp hy with h1 | h1
+        · by_contra hcon
+          have hcon' : simGt (similarity round32 g node y) (similarity round32 g node k) = true := by
+            simpa using hcon
+          have := simGt_trans hcon' hgt
+          rw [hmax y h1] at this; cases this
+        · simp only [List.mem_cons, List.not_mem_nil, or_false] at h1
+          rw [h1]; exact simGt_irrefl _
+      · intro y hy hye
+        rcases List.mem_append.mp hy with h1 | h1
+        · exfalso
+          have := hmax y h1
+          rw [hye, hgt] at this; cases this
+        · simp only [List.mem_cons, List.not_mem_nil, or_false] at h1
+          simp only; omega
+    · have hgt' : simGt (similarity round32 g node k) ms = false := by simpa using hgt
+      simp only [hgt', Bool.false_eq_true, if_false]
+      by_cases heq : simEq (similarity round32 g node k) ms = true
+      · simp only [heq, if_true]
+        have hk := simEq_iff.mp heq
+        refine ⟨?_, ?_, ?_, ?_⟩
+        · simp only
+          by_cases hle : k ≤ nn
+          · rw [Nat.min_eq_left hle]; simp
+          · rw [Nat.min_eq_right (by omega)]; exact List.mem_append_left _ hmem
+        · simp only
+          by_cases hle : k ≤ nn
+          · rw [Nat.min_eq_left hle]; exact hk
+          · rw [Nat.min_eq_right (by omega)]; exact hsim
+        · intro y hy
+          rcases List.mem_append.mp hy with h1 | h1
+          · exact hmax y h1
+          · simp only [List.mem_cons, List.not_mem_nil, or_false] at h1
+            rw [h1]; exact hgt'
+        · intro y hy hye
+          simp only at hye ⊢
+          rcases List.mem_append.mp hy with h1 | h1
+          · exact le_trans (Nat.min_le_right _ _) (hmin y h1 hye)
+          · simp only [List.mem_cons, List.not_mem_nil, or_false] at h1
+            rw [h1]; exact Nat.min_le_left _ _
+      · have heq' : simEq (similarity round32 g node k) ms = false := by simpa using heq
+        simp only [heq', Bool.false_eq_true, if_false]
+        refine ⟨List.mem_append_left _ hmem, hsim, ?_, ?_⟩
+        · intro y hy
+          rcases List.mem_append.mp hy with h1 | h1
+          · exact hmax y h1
+          · simp only [List.mem_cons, List.not_mem_nil, or_false] at h1
+            rw [h1]; exact hgt'
+        · intro y hy hye
+          rcases List.mem_append.mp hy with h1 | h1
+          · exact hmin y h1 hye
+          · simp only [List.mem_cons, List.not_mem_nil, or_false] at h1
+            exfalso
+            rw [h1] at hye
+            have := simEq_iff.mpr hye
+            rw [this] at heq'; cases heq'
 
 /-- `nearest`: the neighbour of greatest similarity, the smallest id among equals -/
-theorem nearest_spec (round32 : ℚ → ℚ) (g : AggGraph ℚ) (node : Nat) (nbrs : List Nat) {nn : Nat} {ms : ℚ}
-    (h : nearest round32 g node nbrs = .ok (some nn, some ms)) :
-    nn ∈ nbrs ∧ similarity round32 g node nn = some ms ∧
-    (∀ y ∈ nbrs, simGt (similarity round32 g node y) (some ms) = false) ∧
-    (∀ y ∈ nbrs, similarity round32 g node y = some ms → nn ≤ y) := by
-  unfold nearest at h
-  have := scan_spec round32 g node nbrs [] (none, none) _ (Or.inl ⟨rfl, rfl⟩) h
-  rcases this with ⟨h1, _⟩ | ⟨nn', ms', h1, h2, h3, h4, h5⟩
-  · cases h1
-  · simp only [Prod.mk.injEq, Option.some.injEq] at h1
-    obtain ⟨e1, e2⟩ := h1
-    subst e1; subst e2
-    simp only [List.nil_append] at h2 h4 h5
-    exact ⟨h2, h3, h4, h5⟩
-
+theorem nearest_spec (round32 : ℚ → ℚ) (g : AggGraph ℚ) (node k : Nat) (ks : List Nat) :
+    (nearest round32 g node k ks).1 ∈ k :: ks ∧
+    similarity round32 g node (nearest round32 g node k ks).1 = (nearest round32 g node k ks).2 ∧
+    (∀ y ∈ k :: ks, simGt (similarity round32 g node y) (nearest round32 g node k ks).2 = false) ∧
+    (∀ y ∈ k :: ks, similarity round32 g node y = (nearest round32 g node k ks).2 →
+      (nearest round32 g node k ks).1 ≤ y) := by
+  unfold nearest
+  have h0 : ScanInv round32 g node [k] (k, similarity round32 g node k) := by
+    refine ⟨by simp, rfl, ?_, ?_⟩
+    · intro y hy
+      simp only [List.mem_cons, List.not_mem_nil, or_false] at hy
+      rw [hy]; exact simGt_irrefl _
+    · intro y hy _
+      simp only [List.mem_cons, List.not_mem_nil, or_false] at hy
+      simp only; omega
+  have := scan_spec round32 g node ks [k] _ h0
+  simpa [ScanInv] using this
 
 /-! ### the finite order in which the top of the chain climbs -/
 
@@ -266,7 +227,7 @@ theorem rank_lt_of_keyLt {round32 : ℚ → ℚ} {g : AggGraph ℚ} {m : Nat} {e
 
 /-- `z1` is what the scan of the neighbours of `z0` returns in `g` -/
 def Fresh (round32 : ℚ → ℚ) (g : AggGraph ℚ) (z0 z1 : Nat) : Prop :=
-  ∃ row s, g.nb.get? z0 = some row ∧ nearest round32 g z0 (row.keys.filter (· != z0)) = .ok (some z1, some s)
+  ∃ row k ks, g.nb.get? z0 = some row ∧ row.keys.filter (· != z0) = k :: ks ∧ (nearest round32 g z0 k ks).1 = z1
 
 open Classical in
 /-- what is left to do before the next merge or the next finished component -/
@@ -395,76 +356,73 @@ theorem chainStep_mu {n : Nat} (round32 : ℚ → ℚ) (n0 : Nat) {st st1 : PSta
           unfold mu
           simp only
           exact mu_dec hl (Nat.lt_succ_of_le (pot_le _ _ _))
-      · split at hs
-        · cases hs
-        · rename_i nn ms hnear
-          obtain ⟨hnnmem, hsimnn, hmax, hmin⟩ := nearest_spec round32 g node _ hnear
-          obtain ⟨hnnlt, hnodelt, hnodenn, _⟩ := nbr_facts hI hrow hnnmem
-          have hfresh : Fresh round32 g node nn := ⟨rowNode, ms, hrow, hnear⟩
+      · rename_i k ks hnb
+        obtain ⟨hnnmem, hsimnn, hmax, hmin⟩ := nearest_spec round32 g node k ks
+        rw [← hnb] at hnnmem hmax hmin
+        obtain ⟨hnnlt, hnodelt, hnodenn, _⟩ := nbr_facts hI hrow hnnmem
+        have hfresh : Fresh round32 g node (nearest round32 g node k ks).1 := ⟨rowNode, k, ks, hrow, hnb, rfl⟩
+        split at hs
+        · rename_i last rest'
           split at hs
-          · rename_i last rest'
+          · -- reciprocal nearest neighbours: merge
             split at hs
-            · -- reciprocal nearest neighbours: merge
-              split at hs
-              · cases hs
-              · split at hs
-                · rename_i s1 s2 h1 h2
-                  simp only [Except.ok.injEq, Option.some.injEq] at hs; subst hs
-                  obtain ⟨L', hP'⟩ := pinv_merge hP h1 h2 hnodenn
-                    (clampHeight n0 rows (.fin (1 / ms)) node nn)
-                  have hnb' : NbInv (g.merge node nn).nb (g.merge node nn).next := by
-                    have := nbInv_merge hI hnodenn hnodelt hnnlt
-                    exact this
-                  refine ⟨⟨⟨L', hP'⟩, hnb'⟩, ?_⟩
-                  have hl := merge_sizes_length hP h1 h2 hnodenn
-                  unfold mu
-                  simp only
-                  exact mu_dec hl (Nat.lt_succ_of_le (pot_le _ _ _))
-                · cases hs
-            · -- the chain grows: the pair on top climbs
-              rename_i hlast
+            · rename_i s1 s2 h1 h2
               simp only [Except.ok.injEq, Option.some.injEq] at hs; subst hs
-              refine ⟨⟨⟨L, hP⟩, hI⟩, ?_⟩
-              have hlastne : last ≠ nn := by simpa using hlast
+              obtain ⟨L', hP'⟩ := pinv_merge hP h1 h2 hnodenn
+                (clampHeight n0 rows (invSim (nearest round32 g node k ks).2) node (nearest round32 g node k ks).1)
+              have hnb' : NbInv (g.merge node (nearest round32 g node k ks).1).nb
+                  (g.merge node (nearest round32 g node k ks).1).next := nbInv_merge hI hnodenn hnodelt hnnlt
+              refine ⟨⟨⟨L', hP'⟩, hnb'⟩, ?_⟩
+              have hl := merge_sizes_length hP h1 h2 hnodenn
               unfold mu
               simp only
-              apply Nat.add_lt_add_left
-              unfold pot
-              simp only [hfresh, if_true]
-              split
-              · -- the pair below was fresh: its key is smaller
-                rename_i hfl
-                obtain ⟨rowL, s0, hrowL, hnearL⟩ := hfl
-                obtain ⟨hnodemem, hsim0, _, _⟩ := nearest_spec round32 g last _ hnearL
-                obtain ⟨_, _, _, hback⟩ := nbr_facts hI hrowL hnodemem
-                have hlastmem := hback rowNode hrow
-                have hsymm : similarity round32 g node last = some s0 := by
-                  rw [similarity_symm round32 g hI.wsym node last]; exact hsim0
-                have hle := hmax last hlastmem
-                rw [hsymm] at hle
-                apply rank_lt_of_keyLt (by simp only; omega) (by simp only; omega)
-                unfold keyLtB
-                simp only [hsim0, hsimnn, Bool.or_eq_true, Bool.and_eq_true, decide_eq_true_eq]
-                by_cases heq : (some s0 : Option ℚ) = some ms
-                · right
-                  refine ⟨simEq_iff.mpr heq.symm, ?_⟩
-                  have := hmin last hlastmem (by rw [hsymm, heq])
-                  omega
-                · left
-                  exact simGt_of_not hle heq
-              · exact rank_lt_sq round32 g (by simp only; omega) (by simp only; omega)
-          · -- the chain had one element
+              exact mu_dec hl (Nat.lt_succ_of_le (pot_le _ _ _))
+            · cases hs
+          · -- the chain grows: the pair on top climbs
+            rename_i hlast
             simp only [Except.ok.injEq, Option.some.injEq] at hs; subst hs
             refine ⟨⟨⟨L, hP⟩, hI⟩, ?_⟩
+            have hlastne : last ≠ (nearest round32 g node k ks).1 := by simpa using hlast
             unfold mu
             simp only
             apply Nat.add_lt_add_left
             unfold pot
             simp only [hfresh, if_true]
-            have := rank_lt_sq round32 g (m := 2 * n) (e := (node, nn)) (by simp only; omega) (by simp only; omega)
-            omega
-        · cases hs
-
+            split
+            · -- the pair below was fresh: its key is smaller
+              rename_i hfl
+              obtain ⟨rowL, kL, ksL, hrowL, hnbL, hnnL⟩ := hfl
+              obtain ⟨hnodemem, hsim0, _, _⟩ := nearest_spec round32 g last kL ksL
+              rw [← hnbL, hnnL] at hnodemem
+              rw [hnnL] at hsim0
+              obtain ⟨_, _, _, hback⟩ := nbr_facts hI hrowL hnodemem
+              have hlastmem := hback rowNode hrow
+              have hsymm : similarity round32 g node last = similarity round32 g last node :=
+                similarity_symm round32 g hI.wsym node last
+              have hle := hmax last hlastmem
+              apply rank_lt_of_keyLt (by simp only; omega) (by simp only; omega)
+              unfold keyLtB
+              simp only [hsimnn, Bool.or_eq_true, Bool.and_eq_true, decide_eq_true_eq]
+              by_cases heq : similarity round32 g last node = (nearest round32 g node k ks).2
+              · right
+                refine ⟨simEq_iff.mpr heq.symm, ?_⟩
+                have := hmin last hlastmem (by rw [hsymm, heq])
+                omega
+              · left
+                rw [hsymm] at hle
+                exact simGt_of_not hle heq
+            · exact rank_lt_sq round32 g (by simp only; omega) (by simp only; omega)
+        · -- the chain had one element
+          simp only [Except.ok.injEq, Option.some.injEq] at hs; subst hs
+          refine ⟨⟨⟨L, hP⟩, hI⟩, ?_⟩
+          unfold mu
+          simp only
+          apply Nat.add_lt_add_left
+          unfold pot
+          simp only [hfresh, if_true]
+          have := rank_lt_sq round32 g (m := 2 * n) (e := (node, (nearest round32 g node k ks).1))
+            (by simp only; omega) (by simp only; omega)
+          omega
 
 /-- with more fuel than the measure, the chain loop never runs out of fuel -/
 theorem chainLoop_terminates {n : Nat} (round32 : ℚ → ℚ) (n0 : Nat) : ∀ (fuel : Nat) (st : PState ℚ),
